@@ -360,6 +360,35 @@ def kani_group(harnesses, timeout=1200, jobs=8):
 # ------------------------------------------------------------------------------------------------
 
 
+def contract_clauses(path, marker):
+    """the requires/ensures text that follows the first line containing `marker`, up to the body / next directive,
+    as a whitespace- and comment-free string (used to compare a callee contract with the contract proved elsewhere)"""
+    try:
+        lines = open(path).read().split("\n")
+    except Exception:
+        return None
+    start = 0
+    if ">>" in marker:
+        first, marker = marker.split(">>", 1)
+        hits = [i for i, ln in enumerate(lines) if first in ln]
+        if not hits:
+            return None
+        start = hits[0]
+    for i, ln in enumerate(lines):
+        if i >= start and marker in ln:
+            out = []
+            for l2 in lines[i + 1:]:
+                t = l2.strip()
+                if t.startswith("{") or t.startswith("//@") and not t.startswith("//@spec"):
+                    break
+                if t.startswith("//@spec") or t.startswith("#["):
+                    continue
+                t = re.sub(r"//.*$", "", t)
+                out.append(t)
+            return re.sub(r"[\s,]+", "", "".join(out))
+    return None
+
+
 def load_known():
     findings, fixed = [], []
     p = os.path.join(VERIF, "known_findings.txt")
@@ -477,6 +506,11 @@ def decide(pid, tier, seed, t0):
     dep_broken = []
     known_hits = []
     inconclusive = list(unit_problems)
+    # callee contracts that one unit uses and another unit proves must be the same text
+    for (fa, ma, fb, mb) in P.get("contract_sync", []):
+        ca, cb = contract_clauses(os.path.join(VERIF, fa), ma), contract_clauses(os.path.join(VERIF, fb), mb)
+        if not ca or ca != cb:
+            inconclusive.append("callee contract of `%s` in %s differs from the contract proved in %s" % (ma, fa, fb))
     obligations = 0
     discharged = 0
     fn_under_contract = []
